@@ -303,6 +303,9 @@ func (x *Exec) intBinSym(op token.Token, w uint16, signed bool, a, b *Term) Valu
 		} else if b.c == 0 {
 			x.tpanic("integer divide by zero")
 		}
+		if r := x.quotVar(op == token.QUO, signed, a, b); r != nil {
+			return fromTerm(r) // fresh quotient / remainder variables (natives_epic.go, term_opts quotvar)
+		}
 		if r := x.divByConst(op == token.QUO, signed, a, b); r != nil {
 			return fromTerm(r) // common factor of dividend and divisor cancelled (affine.go)
 		}
